@@ -1614,15 +1614,33 @@ func (ctx *RenderContext) getAttribute(obj interface{}, attr string) (interface{
 		}
 
 		if method.IsValid() {
-			results := method.Call(nil)
-			if len(results) > 0 {
-				return results[0].Interface(), nil
-			}
-			return nil, nil
+			return callAttributeMethod(method, attr)
 		}
 	}
 
 	// Instead of returning an error for attributes not found, just return nil
+	return nil, nil
+}
+
+// callAttributeMethod calls a zero-argument method that a template reads as an
+// attribute. A trailing error result that is not nil fails the render; a panic
+// while calling it (a method promoted from an embedded nil pointer, for one)
+// becomes an error instead of escaping from Render.
+func callAttributeMethod(method reflect.Value, name string) (value interface{}, err error) {
+	defer func() {
+		if p := recover(); p != nil {
+			value, err = nil, fmt.Errorf("calling method '%s': %v", name, p)
+		}
+	}()
+	results := method.Call(nil)
+	if n := len(results); n > 1 {
+		if e, ok := results[n-1].Interface().(error); ok && e != nil {
+			return nil, e
+		}
+	}
+	if len(results) > 0 {
+		return results[0].Interface(), nil
+	}
 	return nil, nil
 }
 
